@@ -117,7 +117,7 @@ def derive_gated(prog: Program) -> None:
                 GATED_TEXTS.add(v)
                 for q in ff.order:
                     e = q.env.get(v)
-                    if e is not None:
+                    if e is not None and not (isinstance(e, ast.Constant) and e.value is None):
                         GATED_TEXTS.add(U(e))
 
 
